@@ -54,6 +54,15 @@ BASEOFF = (0.2, -0.1, -0.3)
 SURF_Z = 2.0
 BOX_TOP = 2.0  # BoxRegion centred at z = 1.5 with height 1
 
+KINDS = ("number", "Orientation", "Vector", "OrientedPoint", "Object", "field")
+# two fixed, fully 3-D (yaw, pitch and roll all non-zero), non-commuting orientation values
+OA_DEG = (40, 25, -35)
+OB_DEG = (-70, 50, 20)
+OAM = fr.euler(*(a * DEG for a in OA_DEG))
+OBM = fr.euler(*(a * DEG for a in OB_DEG))
+F2_COEFF = (0.1, 0.2, 0.3)  # FLD2 at (x, y, z) = euler(0.1 x, 0.2 y, 0.3 z)
+SRC_SPLIT = 3  # a source program carries one third of the operand-kind product cases
+
 QUICK_SOURCE_PROGRAMS = 16
 THOROUGH_SOURCE_PROGRAMS = 240
 
@@ -219,7 +228,10 @@ def new_expr(cls, specs, bundle=None):
 
 
 class Case:
-    __slots__ = ("key", "construct", "api", "src", "read", "checks", "nontrivial", "api_only")
+    __slots__ = (
+        "key", "construct", "api", "src", "read", "checks", "nontrivial", "api_only",
+        "triple", "discriminating", "expect_error", "rot",
+    )
 
     def __init__(self, key, construct, api, src, read, checks, nontrivial, api_only=False):
         self.key = key
@@ -230,6 +242,10 @@ class Case:
         self.checks = checks  # list of fn(obs) -> None | (signature, message) | "skip"
         self.nontrivial = nontrivial
         self.api_only = api_only
+        self.triple = None  # "operator | left kind | right kind" of the operand-kind product
+        self.discriminating = False  # swapping the operands / the product order changes the answer
+        self.expect_error = False  # the reference says the form is rejected
+        self.rot = None  # product cases are spread over the source programs by this index
 
 
 SKIP = "skip"
@@ -332,7 +348,9 @@ class Builder:
         # global parent and own pitch beyond +-90 degrees: (yaw, pitch, roll) is then not the
         # canonical Euler triple of the orientation
         self.flipped_global = tuple(it["xpar"]) == (0, 0, 0) and math.cos(self.xown[1]) < -1e-9
+        self.e_flipped = tuple(it["epar"]) == (0, 0, 0) and math.cos(self.eown[1]) < -1e-9
         self.cases = []
+        self.triples_undefined = {}
         self.unspecified = {}
         self.skipped = {}
         self.prelude = self.make_prelude()
@@ -374,6 +392,12 @@ class Builder:
         define("FO", ori_expr(self.fo), ori_expr(self.fo))
         define("FLD", 'VectorField("c07", lambda pos: FO)', 'VectorField("c07", lambda pos: FO)')
         define("NP", ori_expr(self.npar), ori_expr(self.npar))
+        define("EP", *new_expr("OrientedPoint", pose_specs(EPOS, self.epar, self.eown)))
+        define("OA", ori_expr(rad(OA_DEG)), ori_expr(rad(OA_DEG)))
+        define("OB", ori_expr(rad(OB_DEG)), ori_expr(rad(OB_DEG)))
+        define("VEC", "Vector%s" % lit(VOFF), "Vector%s" % lit(VOFF))
+        f2 = 'VectorField("c07v", lambda pos: Orientation.fromEuler(%r * pos[0], %r * pos[1], %r * pos[2]))' % F2_COEFF
+        define("FLD2", f2, f2)
         fy = "Orientation.fromEuler(%r, 0, 0)" % self.fyaw
         define("FOY", fy, fy)
         define("FLDY", 'VectorField("c07y", lambda pos: FOY)', 'VectorField("c07y", lambda pos: FOY)')
@@ -913,161 +937,337 @@ class Builder:
                 self.x_tilt,
             )
 
+    # -- operand kinds ----------------------------------------------------------
+    # Every binary orientation / heading / position operator is evaluated over the product
+    # {kind of the left operand} x {kind of the right operand}.  The two sides always carry
+    # different values: left = h1 / OA / VEC / XP / X / FLD, right = h2 / OB / T / EP / E / FLD2.
+
+    def field2_at(self, pos):
+        """Model of the position-dependent field FLD2 of the prelude."""
+        return fr.euler(F2_COEFF[0] * pos[0], F2_COEFF[1] * pos[1], F2_COEFF[2] * pos[2])
+
+    def entity_direction(self, side):
+        """An OrientedPoint "can be used in any context where a heading is expected"
+        (data.rst): the reference does not say whether a 3-D direction operator then sees its
+        full orientation or its heading only, so both readings are accepted.  The ORDER of a
+        composition is stated either way.  Returns None if the heading is ill-defined."""
+        M = self.XM if side == "L" else self.EM
+        if fr.is_gimbal(M):
+            return None
+        return [M, fr.rot_z(fr.yaw_of(M))]
+
+    def direction_operand(self, kind, side):
+        """(text, list of accepted matrices or None) of a direction-valued operand."""
+        if kind == "number":
+            h = self.h1 if side == "L" else self.h2
+            return repr(h), [fr.rot_z(h)]
+        if kind == "Orientation":
+            return ("OA", [OAM]) if side == "L" else ("OB", [OBM])
+        if kind == "field":
+            return ("FLD", [self.FOM]) if side == "L" else ("FLD2", [self.field2_at(QPOS)])
+        if kind == "OrientedPoint":
+            return ("XP" if side == "L" else "EP"), self.entity_direction(side)
+        if kind == "Object":
+            return ("X" if side == "L" else "E"), self.entity_direction(side)
+        raise HarnessError("no direction operand of kind " + kind)
+
+    def point_operand(self, kind, side):
+        if kind == "Vector":
+            return ("T", TPOS) if side == "L" else ("Q", QPOS)
+        if kind == "OrientedPoint":
+            return ("XP", self.xpos) if side == "L" else ("EP", EPOS)
+        if kind == "Object":
+            return ("X", self.xpos) if side == "L" else ("E", EPOS)
+        raise HarnessError("no point operand of kind " + kind)
+
+    def undefined(self, op, lk, rk):
+        t = "%s | %s | %s" % (op, lk, rk)
+        self.triples_undefined[t] = self.triples_undefined.get(t, 0) + 1
+
+    def add_triple(self, op, lk, rk, key, construct, api, src, read, checks, nontrivial, discriminating=False, api_only=False, expect_error=False):
+        self.add(key, construct, api, src, read, checks, nontrivial, api_only)
+        c = self.cases[-1]
+        c.triple = "%s | %s | %s" % (op, lk, rk)
+        c.discriminating = discriminating
+        c.expect_error = expect_error
+        c.rot = triple_index().get(c.triple, 0)
+
+    def chk_any_mat(self, sig, field, accepted, what):
+        def f(obs):
+            got = obs[field]
+            if min(fr.mdiff(got, e) for e in accepted) > TOL:
+                return (
+                    sig,
+                    "%s: observed %s, accepted %s" % (what, fmt(got), " or ".join(fmt(e) for e in accepted)),
+                )
+
+        return f
+
     def build_vector_operators(self):
+        self.build_relative_to()
+        self.build_offset_along()
+        self.build_field_at()
+
+    def build_relative_to(self):
         g = fr
-        v, w = VOFF, VOFF2
-        self.add(
-            "relative-to:vector-vector",
-            "relative to",
-            "RelativeTo(VO, T)",
-            "VO relative to T",
-            "vector",
-            [chk_vec("relative-to:vector-vector", g.vadd(v, TPOS), "sum")],
-            False,
-        )
-        for key, api, src in (
-            ("vector-object", "RelativeTo(VO, X)", "VO relative to X"),
-            ("vector-opoint", "RelativeTo(%s, XP)" % lit(v), "%s relative to XP" % lit(v)),
-            ("object-offset-by", "RelativeTo(X, VO)", "X offset by VO"),
-            ("opoint-offset-by", "RelativeTo(XP, %s)" % lit(v), "XP offset by %s" % lit(v)),
-        ):
-            self.add(
-                "relative-to:" + key,
-                "relative to",
-                api,
-                src,
-                "entity",
-                [chk_pos("relative-to:%s:position" % key, g.to_global(self.xpos, self.XM, v))],
-                self.x_tilt,
+        entity = ("OrientedPoint", "Object")
+        for lk in KINDS:
+            for rk in KINDS:
+                tag = "%s-%s" % (lk, rk)
+                if lk == "Vector" or rk == "Vector":
+                    if lk == "Vector" and rk == "Vector":
+                        for syn in ("relative to", "offset by"):
+                            self.add_triple(
+                                syn, lk, rk, "%s:%s" % (syn.replace(" ", "-"), tag), "relative to",
+                                "RelativeTo(VEC, T)", "VEC %s T" % syn, "vector",
+                                [chk_vec("relative-to:Vector-Vector", g.vadd(VOFF, TPOS), "sum")], False,
+                            )
+                    elif lk == "Vector" and rk in entity:
+                        r, rpos = self.point_operand(rk, "R")
+                        for ltxt, lkk in (("VEC", "Vector"), (lit(VOFF), "tuple")):
+                            self.add_triple(
+                                "relative to", lk, rk, "relative-to:%s-%s" % (lkk, rk), "relative to",
+                                "RelativeTo(%s, %s)" % (ltxt, r), "%s relative to %s" % (ltxt, r), "entity",
+                                [chk_pos("relative-to:%s:position" % tag, g.to_global(EPOS, self.EM, VOFF))], self.e_tilt,
+                            )
+                    elif rk == "Vector" and lk in entity:
+                        l, lpos = self.point_operand(lk, "L")
+                        for syn in ("relative to", "offset by"):
+                            self.add_triple(
+                                syn, lk, rk, "%s:%s" % (syn.replace(" ", "-"), tag), "relative to",
+                                "RelativeTo(%s, VEC)" % l, "%s %s VEC" % (l, syn), "entity",
+                                [chk_pos("relative-to:%s:position" % tag, g.to_global(self.xpos, self.XM, VOFF))], self.x_tilt,
+                            )
+                    else:
+                        self.undefined("relative to", lk, rk)
+                    continue
+                if lk in entity and rk in entity:
+                    # data.rst: "Scenic rejects such expressions as being ambiguous"
+                    l, r = self.point_operand(lk, "L")[0], self.point_operand(rk, "R")[0]
+                    self.add_triple(
+                        "relative to", lk, rk, "relative-to:" + tag, "relative to",
+                        "RelativeTo(%s, %s)" % (l, r), "%s relative to %s" % (l, r), "direction", [], False,
+                        api_only=True, expect_error=True,
+                    )
+                    continue
+                l, lms = self.direction_operand(lk, "L")
+                r, rms = self.direction_operand(rk, "R")
+                if lms is None or rms is None:
+                    self.skip("relative-to:entity-in-gimbal-lock")
+                    continue
+                if (lk in entity and rk == "number" and self.flipped_global) or (rk in entity and lk == "number" and self.e_flipped):
+                    # the implementation adds Object.heading here: known finding (heading is not the
+                    # yaw of the orientation for |pitch| > 90 deg under a global parent)
+                    self.skip("relative-to:heading-of-entity-pitched-beyond-90")
+                    continue
+                accepted = [g.mmul(rm, lm) for lm in lms for rm in rms]  # second direction, then first
+                swapped = [g.mmul(lm, rm) for lm in lms for rm in rms]
+                disc = min(g.mdiff(a, s) for a in accepted for s in swapped) > 1e-3
+                if len(accepted) > 1:
+                    self.unspec("relative-to:entity-as-direction(orientation or heading accepted)")
+                sig = "relative-to:" + tag
+                if lk == "field" or rk == "field":
+                    spec = Spec("Facing(RelativeTo(%s, %s))" % (l, r), "facing (%s relative to %s)" % (l, r))
+                    api, src = new_expr("OrientedPoint", [s_at("Q"), spec], self.QP)
+                    self.add_triple(
+                        "relative to", lk, rk, sig, "relative to", api, src, "entity",
+                        [
+                            self.chk_any_mat(sig, "ori", accepted, "global orientation when facing (L relative to R) at Q"),
+                            chk_mat(sig + ":parentOrientation", "parent", self.NPM, "parentOrientation (must be untouched)"),
+                        ],
+                        True, disc,
+                    )
+                else:
+                    self.add_triple(
+                        "relative to", lk, rk, sig, "relative to",
+                        "RelativeTo(%s, %s)" % (l, r), "(%s) relative to (%s)" % (l, r), "direction",
+                        [self.chk_any_mat(sig, "value", accepted, "second direction, then rotated by the first")],
+                        True, disc,
+                    )
+        self.unspec("relative-to:orientation-of-resulting-oriented-point", 8)
+
+    def build_offset_along(self):
+        g = fr
+        w = VOFF2
+        for lk in KINDS:
+            for dk in KINDS:
+                if lk not in ("Vector", "OrientedPoint", "Object") or dk == "Vector":
+                    self.undefined("offset along", lk, dk)
+                    continue
+                l, lpos = self.point_operand(lk, "L")
+                if dk == "field":
+                    d, dms = "FLD2", [self.field2_at(lpos)]  # "evaluated at the first vector"
+                elif dk == "number":
+                    d, dms = repr(self.fyaw), [g.rot_z(self.fyaw)]
+                else:
+                    d, dms = self.direction_operand(dk, "R")
+                if dms is None:
+                    self.skip("offset-along:entity-in-gimbal-lock")
+                    continue
+                if len(dms) > 1:
+                    self.unspec("offset-along:entity-as-direction(orientation or heading accepted)")
+                accepted = [g.to_global(lpos, dm, w) for dm in dms]
+                sig = "offset-along-op:%s-%s" % (lk, dk)
+                self.add_triple(
+                    "offset along", lk, dk, sig, "offset along (operator)",
+                    "OffsetAlong(%s, %s, VO2)" % (l, d), "%s offset along %s by VO2" % (l, d), "vector",
+                    [self.chk_any_vec(sig, accepted, "offset position")], True, True,
+                )
+        # specifier form with an entity as the direction (heading / orientation / constant field
+        # are built in build_position_specifiers)
+        for dk, d in (("OrientedPoint", "XP"), ("Object", "X")):
+            dms = self.entity_direction("L")
+            if dms is None:
+                self.skip("offset-along:entity-in-gimbal-lock")
+                continue
+            self.unspec("offset-along:entity-as-direction(orientation or heading accepted)")
+            api, src = new_expr("Object", [s_offsetalong(d, "VO2")], self.AO)
+            sig = "offset-along-spec:" + dk
+            self.add_triple(
+                "offset along (specifier)", "ego", dk, sig, "offset along (specifier)", api, src, "entity",
+                [
+                    self.chk_any_vec(sig + ":position", [g.to_global(EPOS, dm, w) for dm in dms], "position", field="pos"),
+                    chk_mat("offset-along-spec:parentOrientation", "parent", self.EM, "parentOrientation (ego's orientation)"),
+                ],
+                True, True,
             )
-        self.unspec("relative-to:orientation-of-resulting-oriented-point", 4)
-        self.add(
-            "relative-to:heading-heading",
-            "relative to",
-            "RelativeTo(%r, %r)" % (self.h1, self.h2),
-            "%r relative to %r" % (self.h1, self.h2),
-            "direction",
-            [chk_mat("relative-to:heading-heading", "value", g.rot_z(self.h1 + self.h2), "sum of headings (as heading or orientation)")],
-            False,
-        )
-        for key, a, b, exp in (
-            ("orientation-orientation", "FO", "NP", g.mmul(self.NPM, self.FOM)),
-            ("heading-orientation", repr(self.h1), "FO", g.mmul(self.FOM, g.rot_z(self.h1))),
-            ("orientation-heading", "FO", repr(self.h1), g.mmul(g.rot_z(self.h1), self.FOM)),
-        ):
-            self.add(
-                "relative-to:" + key,
-                "relative to",
-                "RelativeTo(%s, %s)" % (a, b),
-                "(%s) relative to (%s)" % (a, b),
-                "ori",
-                [chk_mat("relative-to:" + key, "value", exp, "second direction then first")],
-                True,
-            )
-        for key, dtxt, dM in (
-            ("heading", repr(self.fyaw), g.rot_z(self.fyaw)),
-            ("orientation", "FO", self.FOM),
-            ("field", "FLD", self.FOM),
-        ):
-            self.add(
-                "offset-along-op:" + key,
-                "offset along (operator)",
-                "OffsetAlong(T, %s, VO2)" % dtxt,
-                "T offset along %s by VO2" % dtxt,
-                "vector",
-                [chk_vec("offset-along-op:" + key, g.to_global(TPOS, dM, w), "offset position")],
-                True,
+
+    def chk_any_vec(self, sig, accepted, what, field="value"):
+        def f(obs):
+            got = obs[field]
+            if min(fr.vdist(got, e) for e in accepted) > TOL:
+                return (sig, "%s: observed %s, accepted %s" % (what, fmt(got), " or ".join(fmt(e) for e in accepted)))
+
+        return f
+
+    def build_field_at(self):
+        for lk in KINDS:
+            if lk not in ("Vector", "OrientedPoint", "Object"):
+                self.undefined("at", "field", lk)
+                continue
+            l, lpos = self.point_operand(lk, "L")
+            sig = "field-at:" + lk
+            self.add_triple(
+                "at", "field", lk, sig, "field at", "FieldAt(FLD2, %s)" % l, "FLD2 at %s" % l, "ori",
+                [chk_mat(sig, "value", self.field2_at(lpos), "orientation of the field at the position")], True, True,
             )
 
     def build_scalar_operators(self):
         g = fr
-        pairs = (
-            ("vector-vector", "T", TPOS, lit(QPOS), QPOS),
-            ("object-vector", "X", self.xpos, "T", TPOS),
-            ("opoint-object", "XP", self.xpos, "E", EPOS),
-            ("ego-default", None, EPOS, "T", TPOS),
-            ("ego-object", None, EPOS, "X", self.xpos),
-        )
-        for key, a, apos, b, bpos in pairs:
-            # distance
+        point_kinds = ("Vector", "OrientedPoint", "Object")
+        # distance / angle / altitude [from L] to R
+        forms = []
+        for lk in KINDS + ("default",):
+            for rk in KINDS + ("default",):
+                if lk == "default" and rk == "default":
+                    continue
+                ok = (lk in point_kinds or lk == "default") and (rk in point_kinds or rk == "default")
+                for op in ("distance", "angle", "altitude"):
+                    if not ok:
+                        self.undefined(op, lk, rk)
+                if not ok:
+                    continue
+                if lk == "default":  # from ego; the target is taken from the X side
+                    a, apos = None, EPOS
+                    b, bpos = self.point_operand(rk, "L")
+                elif rk == "default":
+                    a, apos = self.point_operand(lk, "L")
+                    b, bpos = None, EPOS
+                else:
+                    a, apos = self.point_operand(lk, "L")
+                    b, bpos = self.point_operand(rk, "R")
+                forms.append((lk, rk, a, apos, b, bpos))
+        for lk, rk, a, apos, b, bpos in forms:
+            tag = "%s-%s" % (lk, rk)
+            calls = {}
             if a is None:
-                api, src = "DistanceFrom(%s)" % b, "distance to %s" % b
+                calls["distance"] = ("DistanceFrom(%s)" % b, "distance to %s" % b)
+                calls["angle"] = ("AngleFrom(Y=%s)" % b, "angle to %s" % b)
+                calls["altitude"] = ("AltitudeFrom(Y=%s)" % b, "altitude to %s" % b)
+            elif b is None:
+                calls["distance"] = ("DistanceFrom(%s)" % a, "distance from %s" % a)
+                calls["angle"] = ("AngleFrom(X=%s)" % a, "angle from %s" % a)
+                calls["altitude"] = ("AltitudeFrom(X=%s)" % a, "altitude from %s" % a)
             else:
-                api, src = "DistanceFrom(%s, Y=%s)" % (b, a), "distance from %s to %s" % (a, b)
-            self.add(
-                "distance:" + key, "distance", api, src, "scalar",
+                calls["distance"] = ("DistanceFrom(%s, Y=%s)" % (b, a), "distance from %s to %s" % (a, b))
+                calls["angle"] = ("AngleFrom(X=%s, Y=%s)" % (a, b), "angle from %s to %s" % (a, b))
+                calls["altitude"] = ("AltitudeFrom(X=%s, Y=%s)" % (a, b), "altitude from %s to %s" % (a, b))
+            self.add_triple(
+                "distance", lk, rk, "distance:" + tag, "distance", calls["distance"][0], calls["distance"][1], "scalar",
                 [chk_scalar("distance", g.vdist(apos, bpos), "distance")], False,
             )
-            # angle
-            if a is None:
-                api, src = "AngleFrom(Y=%s)" % b, "angle to %s" % b
-            else:
-                api, src = "AngleFrom(X=%s, Y=%s)" % (a, b), "angle from %s to %s" % (a, b)
             if g.horizontal_degenerate(apos, bpos, 1e-6):
                 self.skip("angle:vertical")
-            else:
-                self.add(
-                    "angle:" + key, "angle", api, src, "scalar",
-                    [chk_angle("angle", g.azimuth(apos, bpos), "heading (azimuth) to the position")], False,
-                )
-            # altitude
-            if a is None:
-                api, src = "AltitudeFrom(Y=%s)" % b, "altitude to %s" % b
-            else:
-                api, src = "AltitudeFrom(X=%s, Y=%s)" % (a, b), "altitude from %s to %s" % (a, b)
-            if g.horizontal_degenerate(apos, bpos, 1e-6):
-                # the reference's only example ("pi if directly above") contradicts the
-                # usual definition there
+                # the reference's only example ("pi if directly above") contradicts the usual definition there
                 self.unspec("altitude:directly-above")
-            else:
-                self.add(
-                    "altitude:" + key, "altitude", api, src, "scalar",
-                    [chk_scalar("altitude", g.altitude(apos, bpos), "altitude (elevation angle)")], False,
-                )
-        # relative heading of H [from H]
-        xg, eg = g.is_gimbal(self.XM), g.is_gimbal(self.EM)
-        xh, eh = g.yaw_of(self.XM), g.yaw_of(self.EM)
-        rh = []
-        rh.append(("heading-heading", repr(self.h1), self.h1, repr(self.h2), self.h2, False, False))
-        rh.append(("object-heading", "X", xh, repr(self.h2), self.h2, xg, self.x_tilt))
-        rh.append(("heading-ego", repr(self.h1), self.h1, None, eh, eg, self.e_tilt))
-        rh.append(("object-ego", "X", xh, None, eh, xg or eg, self.x_tilt or self.e_tilt))
-        rh.append(("opoint-object", "XP", xh, "E", eh, xg or eg, self.x_tilt or self.e_tilt))
-        for key, a, ah, b, bh, degenerate, nt in rh:
-            if degenerate:
-                self.skip("relative-heading:gimbal-lock")
                 continue
-            if b is None:
-                api, src = "RelativeHeading(%s)" % a, "relative heading of %s" % a
-            else:
-                api, src = "RelativeHeading(%s, Y=%s)" % (a, b), "relative heading of %s from %s" % (a, b)
-            self.add(
-                "relative-heading:" + key, "relative heading", api, src, "scalar",
-                [chk_angle("relative-heading", ah - bh, "heading minus reference heading")], nt,
+            self.add_triple(
+                "angle", lk, rk, "angle:" + tag, "angle", calls["angle"][0], calls["angle"][1], "scalar",
+                [chk_angle("angle", g.azimuth(apos, bpos), "heading (azimuth) to the position")], False,
             )
-        # apparent heading of OP [from V]
-        for key, a, b, bpos in (
-            ("object-vector", "X", "T", TPOS),
-            ("opoint-vector", "XP", lit(QPOS), QPOS),
-            ("object-ego", "X", None, EPOS),
-            ("opoint-object", "XP", "E", EPOS),
-        ):
-            if xg:
-                self.skip("apparent-heading:gimbal-lock")
-                continue
-            if g.horizontal_degenerate(bpos, self.xpos, 1e-6):
-                self.skip("apparent-heading:vertical-line-of-sight")
-                continue
-            if b is None:
-                api, src = "ApparentHeading(%s)" % a, "apparent heading of %s" % a
-            else:
-                api, src = "ApparentHeading(%s, Y=%s)" % (a, b), "apparent heading of %s from %s" % (a, b)
-            self.add(
-                "apparent-heading:" + key, "apparent heading", api, src, "scalar",
-                [self.chk_apparent_heading(xh, bpos)],
-                self.x_tilt,
+            self.add_triple(
+                "altitude", lk, rk, "altitude:" + tag, "altitude", calls["altitude"][0], calls["altitude"][1], "scalar",
+                [chk_scalar("altitude", g.altitude(apos, bpos), "altitude (elevation angle)")], False,
             )
 
+        # relative heading of L [from R]: headings; an OrientedPoint stands for its heading
+        xg, eg = g.is_gimbal(self.XM), g.is_gimbal(self.EM)
+        xh, eh = g.yaw_of(self.XM), g.yaw_of(self.EM)
+        heading_kinds = ("number", "OrientedPoint", "Object")
+        for lk in KINDS:
+            for rk in KINDS + ("default",):
+                if lk not in heading_kinds or (rk not in heading_kinds and rk != "default"):
+                    self.undefined("relative heading", lk, rk)
+                    continue
+                if lk == "number":
+                    a, ah, adeg, ant = repr(self.h1), self.h1, False, False
+                else:
+                    a, ah, adeg, ant = ("XP" if lk == "OrientedPoint" else "X"), xh, xg, self.x_tilt
+                if rk == "number":
+                    b, bh, bdeg, bnt = repr(self.h2), self.h2, False, False
+                elif rk == "default":
+                    b, bh, bdeg, bnt = None, eh, eg, self.e_tilt
+                else:
+                    b, bh, bdeg, bnt = ("EP" if rk == "OrientedPoint" else "E"), eh, eg, self.e_tilt
+                if adeg or bdeg:
+                    self.skip("relative-heading:gimbal-lock")
+                    continue
+                if b is None:
+                    api, src = "RelativeHeading(%s)" % a, "relative heading of %s" % a
+                else:
+                    api, src = "RelativeHeading(%s, Y=%s)" % (a, b), "relative heading of %s from %s" % (a, b)
+                self.add_triple(
+                    "relative heading", lk, rk, "relative-heading:%s-%s" % (lk, rk), "relative heading", api, src, "scalar",
+                    [chk_angle("relative-heading", ah - bh, "heading minus reference heading")], ant or bnt,
+                    discriminating=abs(math.sin(ah - bh)) > 1e-3,  # (a - b) and (b - a) differ mod 2 pi
+                )
+        # apparent heading of L [from R]
+        for lk in KINDS:
+            for rk in KINDS + ("default",):
+                if lk not in ("OrientedPoint", "Object") or (rk not in point_kinds and rk != "default"):
+                    self.undefined("apparent heading", lk, rk)
+                    continue
+                a = "XP" if lk == "OrientedPoint" else "X"
+                if rk == "default":
+                    b, bpos = None, EPOS
+                elif rk == "Vector":
+                    b, bpos = "T", TPOS
+                else:
+                    b, bpos = self.point_operand(rk, "R")
+                if xg:
+                    self.skip("apparent-heading:gimbal-lock")
+                    continue
+                if g.horizontal_degenerate(bpos, self.xpos, 1e-6):
+                    self.skip("apparent-heading:vertical-line-of-sight")
+                    continue
+                if b is None:
+                    api, src = "ApparentHeading(%s)" % a, "apparent heading of %s" % a
+                else:
+                    api, src = "ApparentHeading(%s, Y=%s)" % (a, b), "apparent heading of %s from %s" % (a, b)
+                self.add_triple(
+                    "apparent heading", lk, rk, "apparent-heading:%s-%s" % (lk, rk), "apparent heading", api, src, "scalar",
+                    [self.chk_apparent_heading(xh, bpos)], self.x_tilt, True,
+                )
 
     def chk_apparent_heading(self, xh, bpos):
         exp = fr.apparent_heading(self.xpos, xh, bpos)
@@ -1155,15 +1355,32 @@ def run_api(b):
                 exec(api, ns)
         for c in b.cases:
             try:
-                out[c.key] = ("ok", observe(eval(c.api, ns), c.read))
+                value = eval(c.api, ns)
+            except Exception as e:
+                out[c.key] = ("exc", "%s: %s" % (type(e).__name__, e))
+                continue
+            if c.expect_error:  # not rejected: whatever came back is the observation
+                out[c.key] = ("ok", {"value": "a %s" % type(value).__name__})
+                continue
+            try:
+                out[c.key] = ("ok", observe(value, c.read))
             except HarnessError:
                 raise
             except Exception as e:
-                out[c.key] = ("exc", "%s: %s" % (type(e).__name__, e))
+                out[c.key] = ("exc", "result of unexpected type %s (%s: %s)" % (type(value).__name__, type(e).__name__, e))
     finally:
         veneer.currentScenario = old
     out["__ns__"] = ns
     return out
+
+
+def in_source(b, c):
+    """Cases written into the source program of this item: all the basic ones, and the third
+    of the operand-kind product selected by the item index (every source program would
+    otherwise double in size; the parser costs about 25 ms per statement)."""
+    if c.api_only:
+        return False
+    return c.rot is None or c.rot % SRC_SPLIT == b.item.get("src_part", 0) % SRC_SPLIT
 
 
 def program_text(b):
@@ -1172,7 +1389,7 @@ def program_text(b):
         lines.append(src)
     names = []
     for c in b.cases:
-        if c.api_only:
+        if not in_source(b, c):
             continue
         names.append("c%d" % len(names))
         lines.append("%s = %s" % (names[-1], c.src))
@@ -1192,7 +1409,7 @@ def run_source(b):
         return None, "%s: %s" % (type(e).__name__, e), text
     n = 0
     for c in b.cases:
-        if c.api_only:
+        if not in_source(b, c):
             continue
         try:
             out[c.key] = ("ok", observe(values[n], c.read))
@@ -1301,7 +1518,7 @@ def entity_laws(b, ns):
 
 def judge(b, results, route, res):
     for c in b.cases:
-        if route == "source" and c.api_only:
+        if route == "source" and not in_source(b, c):
             continue
         st = results.get(c.key)
         if st is None:
@@ -1311,6 +1528,24 @@ def judge(b, results, route, res):
         if c.nontrivial:
             res["nontrivial"] += 1
             res["constructs_nontrivial"][c.construct] = res["constructs_nontrivial"].get(c.construct, 0) + 1
+        if c.expect_error:
+            res["judgments"] += 1
+            rejected = st[0] == "exc" and st[1].split(":")[0] in ("TypeError", "InvalidScenarioError", "ScenicSyntaxError")
+            res["triples"][c.triple] = res["triples"].get(c.triple, 0) + 1
+            if not rejected:
+                res["violations"].append(
+                    (
+                        c.key + ":not-rejected",
+                        "the reference says this form is rejected as ambiguous; observed %s\n  api: %s\n  source: %s"
+                        % (st[1] if st[0] == "exc" else st[1]["value"], c.api, c.src),
+                        {"item": b.item, "key": c.key, "signature": c.key + ":not-rejected"},
+                    )
+                )
+            continue
+        if c.triple is not None and c.checks:  # (a case that raises is reported below: still judged)
+            res["triples"][c.triple] = res["triples"].get(c.triple, 0) + 1
+            if c.discriminating:
+                res["triples_disc"][c.triple] = res["triples_disc"].get(c.triple, 0) + 1
         if st[0] == "exc":
             res["violations"].append(
                 (
@@ -1352,6 +1587,9 @@ def check_item(item):
         "violations": [],
         "constructs": {},
         "constructs_nontrivial": {},
+        "triples": {},
+        "triples_disc": {},
+        "triples_undefined": {},
         "unspecified": {},
         "skipped": {},
         "programs": 0,
@@ -1389,6 +1627,7 @@ def check_item(item):
             else:
                 judge(b, results, "source", res)
         res["unspecified"] = b.unspecified
+        res["triples_undefined"] = b.triples_undefined
         res["skipped"] = b.skipped
         if item["idx"] % 97 == 0 and route == "api":
             c = b.cases[(item["idx"] // 97 * 13) % len(b.cases)]
@@ -1430,6 +1669,68 @@ def model_selfcheck():
         raise HarnessError("model: azimuth")
 
 
+# ------------------------------------------------------------------ operand-kind product
+
+ENTITY = ("OrientedPoint", "Object")
+POINTS = ("Vector", "OrientedPoint", "Object")
+REJECTED_TRIPLES = {"relative to | %s | %s" % (a, b) for a in ENTITY for b in ENTITY}
+
+
+def required_triples():
+    """{triple: order-sensitive?} for every (operator, left kind, right kind) to which
+    docs/reference/{operators,specifiers,data}.rst give a meaning.  Written out independently of
+    the Builder loops, so that a form dropped there is noticed."""
+    req = {}
+
+    def need(op, lk, rk, order=False):
+        req["%s | %s | %s" % (op, lk, rk)] = order
+
+    directions = ("number", "Orientation", "field") + ENTITY
+    for lk in directions:
+        for rk in directions:
+            if lk in ENTITY and rk in ENTITY:
+                need("relative to", lk, rk)  # rejected as ambiguous (data.rst)
+            else:
+                # heading + heading commutes; everything else is a 3-D composition
+                need("relative to", lk, rk, order=not (lk == "number" and rk == "number")
+                     and not (lk == "number" and rk in ENTITY) and not (lk in ENTITY and rk == "number"))
+    need("relative to", "Vector", "Vector")
+    need("offset by", "Vector", "Vector")
+    for e in ENTITY:
+        need("relative to", "Vector", e)
+        need("relative to", e, "Vector")
+        need("offset by", e, "Vector")
+    for lk in POINTS:
+        for dk in ("number", "Orientation", "field") + ENTITY:
+            need("offset along", lk, dk, order=True)
+        need("at", "field", lk, order=True)
+    for dk in ENTITY:
+        need("offset along (specifier)", "ego", dk, order=True)
+    for op in ("distance", "angle", "altitude"):
+        for lk in POINTS + ("default",):
+            for rk in POINTS + ("default",):
+                if not (lk == "default" and rk == "default"):
+                    need(op, lk, rk)
+    for lk in ("number",) + ENTITY:
+        for rk in ("number", "default") + ENTITY:
+            need("relative heading", lk, rk, order=True)
+    for lk in ENTITY:
+        for rk in POINTS + ("default",):
+            need("apparent heading", lk, rk, order=True)
+    return req
+
+
+_TRIPLE_INDEX = None
+
+
+def triple_index():
+    """Stable numbering of the required triples (decides which source programs carry them)."""
+    global _TRIPLE_INDEX
+    if _TRIPLE_INDEX is None:
+        _TRIPLE_INDEX = {t: i for i, t in enumerate(sorted(required_triples()))}
+    return _TRIPLE_INDEX
+
+
 # ------------------------------------------------------------------ run / replay
 
 
@@ -1446,11 +1747,12 @@ def run(ctx):
     nsrc = QUICK_SOURCE_PROGRAMS if ctx.tier == "quick" else THOROUGH_SOURCE_PROGRAMS
     # deterministic prefix (spread over the lattice) compiled from real Scenic source text
     stride = max(1, len(items) // nsrc)
-    src_items = [dict(it, route="source") for it in items[::stride][:nsrc]]
+    src_items = [dict(it, route="source", src_part=j % SRC_SPLIT) for j, it in enumerate(items[::stride][:nsrc])]
     work = src_items + items
 
     tot = {"evaluations": 0, "judgments": 0, "nontrivial": 0, "programs": 0, "src_evaluations": 0}
     constructs, constructs_nt, unspecified, skipped = {}, {}, {}, {}
+    triples, triples_disc, triples_undef, triples_src = {}, {}, {}, {}
     samples = []
     seen = set()
     for r in ctx.pmap(check_item, work, chunksize=4):
@@ -1467,6 +1769,10 @@ def run(ctx):
             (constructs_nt, r["constructs_nontrivial"]),
             (unspecified, r["unspecified"]),
             (skipped, r["skipped"]),
+            (triples, r["triples"]),
+            (triples_disc, r["triples_disc"]),
+            (triples_undef, r["triples_undefined"]),
+            (triples_src, r["triples"] if r["programs"] else {}),
         ):
             for k, v in src.items():
                 d[k] = d.get(k, 0) + v
@@ -1485,7 +1791,7 @@ def run(ctx):
         "facing away from", "facing directly toward", "facing directly away from", "apparently facing",
         "beyond", "offset by", "offset along (specifier)", "following", "on", "side operators",
         "relative to", "offset along (operator)", "distance", "angle", "altitude", "relative heading",
-        "apparent heading", "algebra laws", "entity laws",
+        "apparent heading", "field at", "algebra laws", "entity laws",
     ]
     missing = [c for c in required if constructs.get(c, 0) == 0]
     if missing:
@@ -1494,6 +1800,23 @@ def run(ctx):
     flat = [c for c in required if c not in ("distance", "angle", "altitude") and constructs_nt.get(c, 0) == 0]
     if flat:
         raise HarnessError("vacuous: constructs never evaluated with a tilted / non-global frame: %s" % flat)
+    # operand-kind product: every (operator, left kind, right kind) the reference defines must
+    # have been judged, through both routes, and (where the order of the operands matters) with
+    # values for which a swapped order gives a different answer
+    req = required_triples()
+    never = sorted(t for t in req if triples.get(t, 0) == 0)
+    if never:
+        raise HarnessError("vacuous: operand-kind triples defined by the reference but never judged: %s" % never)
+    never = sorted(t for t in req if req[t] and triples_disc.get(t, 0) == 0)
+    if never:
+        raise HarnessError("vacuous: operand-kind triples never judged with non-commuting operands: %s" % never)
+    # (a rejected form aborts a whole program, so those are driven through the api route only)
+    never = sorted(t for t in req if triples_src.get(t, 0) == 0 and t not in REJECTED_TRIPLES)
+    if never:
+        raise HarnessError("vacuous: operand-kind triples never judged through Scenic source text: %s" % never)
+    overlap = sorted(set(req) & set(triples_undef))
+    if overlap:
+        raise HarnessError("operand-kind triples both required and counted as undefined: %s" % overlap)
     if tot["nontrivial"] == 0:
         raise HarnessError("vacuous: no case in which a rotation matters")
     if tot["programs"] == 0 or tot["src_evaluations"] == 0:
@@ -1508,7 +1831,10 @@ def run(ctx):
         rule="every pose item (reference pose from %d parent orientations x %d yaw/pitch/roll triples with <=2 non-zero "
         "angles out of {0,30,-45,90,135,180} deg, positions off the origin, 2 dimension triples; ego / new-object pose and "
         "vector-field orientation paired by a fixed bijection of the same lattice) x every construct case (argument kinds "
-        "vector / OrientedPoint / Object / ego default, with and without `by`, scalar and vector offsets); items are "
+        "vector / OrientedPoint / Object / ego default, with and without `by`, scalar and vector offsets; and for every "
+        "binary operator the full product {left operand kind} x {right operand kind} over number, Orientation, Vector, "
+        "OrientedPoint, Object, vector field / ego default, with different fully 3-D values on the two sides: triples the "
+        "reference defines are judged and must all be reached, the others are counted as undefined); items are "
         "pairwise distinct, so every (item, case) is distinct; non-trivial = the frame that the case depends on has "
         "non-zero pitch/roll or a non-global parentOrientation (or the construct builds a 3-D line-of-sight / field frame)"
         % (len(PARENTS), len(OWN)),
@@ -1517,6 +1843,11 @@ def run(ctx):
         source_programs=tot["programs"],
         source_evaluations=tot["src_evaluations"],
         per_construct=dict(sorted(constructs.items())),
+        operand_kind_triples_judged=dict(sorted(triples.items())),
+        operand_kind_triples_judged_order_sensitive=dict(sorted(triples_disc.items())),
+        operand_kind_triples_judged_via_source=dict(sorted(triples_src.items())),
+        operand_kind_triples_undefined_in_reference=dict(sorted(triples_undef.items())),
+        operand_kind_triples_required=len(req),
         per_construct_rotation_matters=dict(sorted(constructs_nt.items())),
         unspecified=dict(sorted(unspecified.items())),
         skipped_touching=sum(skipped.values()),
